@@ -392,6 +392,13 @@ func (r *CPUSuppress) adjustByCPUSet(cpusetQuantity *resource.Quantity, nodeCPUI
 		}
 	}
 
+	if len(lsrCpus)+len(lsCpus) == 0 {
+		// every cpu is reserved, exclusive to system qos or owned by lse pods: nothing can be handed to be pods
+		// (and the pool split below would divide by zero)
+		klog.Warningf("suppressBECPU skipped, no cpu is available for best-effort pods")
+		return
+	}
+
 	// set the number of cpuset cpus no less than 2
 	cpus := int32(math.Ceil(float64(cpusetQuantity.MilliValue()) / 1000))
 	if cpus < beMinCPUSetCores {
